@@ -12,6 +12,8 @@ pub mod c12;
 pub mod c13;
 pub mod c14;
 pub mod c15;
+pub mod c16;
+pub mod c17;
 pub mod c18;
 pub mod c19;
 pub mod common;
@@ -20,5 +22,5 @@ pub mod solvecmp;
 use crate::runner::Prop;
 
 pub fn all() -> Vec<Prop> {
-    vec![c01::prop(), c02::prop(), c03::prop(), c04::prop(), c05::prop(), c06::prop06(), c06::prop07(), c08::prop(), c09::prop(), c10::prop(), c11::prop(), c12::prop(), c13::prop(), c14::prop(), c15::prop(), c18::prop(), c19::prop()]
+    vec![c01::prop(), c02::prop(), c03::prop(), c04::prop(), c05::prop(), c06::prop06(), c06::prop07(), c08::prop(), c09::prop(), c10::prop(), c11::prop(), c12::prop(), c13::prop(), c14::prop(), c15::prop(), c16::prop(), c17::prop(), c18::prop(), c19::prop()]
 }
